@@ -612,7 +612,7 @@ func init() {
 		// seeded random triples over 0000..9999 with several filters alive at once
 		nr := 200
 		if d.Thorough() {
-			nr = 5000
+			nr = 150000
 		}
 		rd := func() []int {
 			if d.R.Intn(6) == 0 {
